@@ -6,7 +6,8 @@ def stage(n):
     return json.loads(subprocess.run(["git", "-C", V, "show", ":%d:known_findings.json" % n], stdout=subprocess.PIPE, text=True, check=True).stdout)
 a, b = stage(2), stage(3)
 out = {"comment": a.get("comment", ""), "findings": [], "fixed": []}
-seen = set()
+removed = set(l.strip() for l in open(os.path.join(V, 'tools', 'kf_removed.txt')) if l.strip()) if os.path.exists(os.path.join(V, 'tools', 'kf_removed.txt')) else set()
+seen = set(removed)
 for f in a["findings"] + b["findings"]:
     if f["id"] not in seen:
         seen.add(f["id"]); out["findings"].append(f)
